@@ -8,7 +8,17 @@ from .cgt import trace_family, cgt_family, law_family, report_family, calendar_f
 
 
 def c01(tier, seed):
-    return combine(fam_list(tier, ['core_q', 'edge_q', 'frac_q', 'split_q', 'split5_q', 'split2_q', 'order_q', 'two_q', 'two_split_q', 'matcher_q'], ['core_t', 'split_t', 'sim_t', 'matcher_t', 'matcher_sim_t']) + [trace_family(tier, seed)], 'multi_leg_disposals',
+    r = _c01(tier, seed)
+    m = mcp_check(tier, seed)      # explain_matching re-derives the legs of a disposal: same rules, same legs
+    r['findings'] += [f for f in m['findings'] if f['prop'] == 'C01']
+    r['coverage']['mcp_sessions'] = m['coverage'].get('sessions', 0)
+    r['coverage']['states'] += m['coverage']['states']
+    r['coverage']['transitions'] += m['coverage']['transitions']
+    return r
+
+
+def _c01(tier, seed):
+    return combine(fam_list(tier, ['core_q', 'edge_q', 'frac_q', 'split_q', 'split5_q', 'split2_q', 'order_q', 'two_q', 'two_split_q', 'two_fills_q', 'matcher_q'], ['core_t', 'split_t', 'sim_t', 'matcher_t', 'matcher_sim_t']) + [trace_family(tier, seed)], 'multi_leg_disposals',
                    'every cell ledger of the family (TLC-enumerated) x base dates; non-trivial = ledgers with a disposal '
                    'identified by two or more legs')
 
